@@ -406,7 +406,7 @@ def gen_cases(ctx):
         n = int(np.prod(D.sizes))
         for sp in all_space_args(rng, D.k):
             for op in ["sum", "integrate", "mean", "var", "weight", "vdot", "prod"]:
-                if ctx.quick and rng.random() < 0.45:
+                if ctx.quick and sp != [] and rng.random() < 0.45:
                     continue
                 dt = dtypes[int(rng.integers(0, 3))]
                 c = {"dom": specs, "dtype": dt, "data": gen_data(rng, n, dt), "op": op, "spaces": sp}
@@ -465,7 +465,7 @@ def gen_mf_cases(ctx):
     out = []
     pool = [[["RG", [2], [0.5], False]], [["DOF", [0.5, 2.0, 1.0]]], [["U", [2]], ["RG", [2], [0.5], False]], [["LM", 1]]]
     dtypes = ["int64", "float64", "complex128"]
-    for i in range(40 if ctx.quick else 300):
+    for i in range(60 if ctx.quick else 300):
         keys = "abcd"
         dk = {k: pool[int(rng.integers(0, len(pool)))] for k in keys}
 
@@ -482,9 +482,12 @@ def gen_mf_cases(ctx):
         mode = ["same", "keys", "dom"][int(rng.integers(0, 3))]
         if mode == "same":
             kb = ka
+        elif rng.random() < 0.4:
+            # the partner has the same leading keys plus more, or fewer (a prefix / an extension)
+            kb = (ka + [k for k in keys if k > ka[-1]]) if rng.random() < 0.6 else (ka[:-1] or ka)
         else:
             kb = [k for k in keys if rng.random() < 0.6] or ["b"]
-        out.append({"a": mk(ka), "b": mk(kb, alt=(mode == "dom")), "op": ["s_vdot", "addsub0", "addsub1"][i % 3]})
+        out.append({"a": mk(ka), "b": mk(kb, alt=(mode == "dom")), "op": ["s_vdot", "addsub0", "addsub1", "badd", "bmul", "bsub"][i % 6]})
     return out
 
 
@@ -494,6 +497,8 @@ def mf_run(case):
     try:
         if case["op"] == "s_vdot":
             return ("val", complex(a.s_vdot(b)))
+        if case["op"] in ("badd", "bmul", "bsub"):
+            return ("mf", {"badd": lambda: a + b, "bmul": lambda: a * b, "bsub": lambda: a - b}[case["op"]]())
         r = a.flexible_addsub(b, case["op"] == "addsub1")
         return ("mf", r)
     except EXC as e:
@@ -507,6 +512,11 @@ def mf_reference(case):
         if sorted(da) != sorted(db) or any(da[k][0] != db[k][0] for k in da):
             return ("err",)
         return ("val", sum(np.vdot(da[k][1], db[k][1]) for k in da))
+    if case["op"] in ("badd", "bmul", "bsub"):
+        if sorted(da) != sorted(db) or any(da[k][0] != db[k][0] for k in da):
+            return ("err",)
+        fn = {"badd": lambda x, y: x + y, "bmul": lambda x, y: x * y, "bsub": lambda x, y: x - y}[case["op"]]
+        return ("mf", {k: fn(da[k][1], db[k][1]) for k in da})
     neg = case["op"] == "addsub1"
     out = {}
     for k in sorted(set(da) | set(db)):
@@ -544,6 +554,12 @@ def mf_check_term(case, out):
         if out[0] == "err":
             return "match ms_vdot %s %s with None => true | Some _ => false end" % (a, b)
         return "match ms_vdot %s %s with Some v => cclose (q 0 1) v %s | None => false end" % (a, b, cval(out[1]))
+    if case["op"] in ("badd", "bmul", "bsub"):
+        fn = {"badd": "cadd", "bmul": "cmul", "bsub": "csub"}[case["op"]]
+        if out[0] == "err":
+            return "match mbinop %s %s %s with None => true | Some _ => false end" % (fn, a, b)
+        return "match mbinop %s %s %s with Some m => mclose (q 0 1) m %s | None => false end" % (
+            fn, a, b, mf_result_coq(out[1], {e[0]: e[1] for e in case["a"]}))
     neg = "true" if case["op"] == "addsub1" else "false"
     if out[0] == "err":
         return "match flexible_addsub %s %s %s with None => true | Some _ => false end" % (neg, a, b)
@@ -585,6 +601,13 @@ def extra_probes():
         yield "Field.std (per-pixel)", None if abs(f.std().asnumpy() - ref) < 1e-12 and abs(f.s_std() - ref) < 1e-12 else "std differs"
         h = ift.Field.from_raw(d1, a1)
         yield "Field.std (uniform)", None if abs(h.std().asnumpy() - np.std(a1)) < 1e-12 and abs(h.s_std() - np.std(a1)) < 1e-12 else "std differs"
+        e = np.array([0., 2., -1.])
+        he = ift.Field.from_raw(d1, e)
+        ok = (np.array_equal(he.var(()).asnumpy(), np.zeros(3)) and np.array_equal(he.std(()).asnumpy(), np.zeros(3))
+              and he.all(()).asnumpy().dtype == bool and np.array_equal(he.all(()).asnumpy(), e != 0)
+              and he.any(()).asnumpy().dtype == bool and np.array_equal(he.any(()).asnumpy(), e != 0)
+              and np.array_equal(f.var(()).asnumpy(), np.zeros(4)) and bool(he.any().asnumpy()) and not bool(he.all().asnumpy()))
+        yield "contractions over the empty subset", None if ok else "var/std/all/any over spaces=() do not follow ndarray semantics (axis=())"
         cmpf = (h < 1).asnumpy()
         yield "Field comparison", None if np.array_equal(cmpf, a1 < 1) else "comparison differs"
 
